@@ -63,6 +63,8 @@ def items(tier):
                     out.append((sp, {"rule": "TSLACK", "max_time": 10}))
     for sp in F.fac_specs(tier):
         out.append((sp, {"rule": "TSLACK", "max_time": F.seq_bound(sp) + 8}))
+    for sp in F.same_name_task_specs():
+        out.append((sp, {"rule": "TSLACK", "max_time": 14}))
     if tier == "thorough":
         for fl in F.flows(3, ("FS", "SS"), (1, 2)):
             for lay in ("MIX", "TWOTEAM", "SOLO"):
@@ -80,6 +82,9 @@ def run(tier, seed):
     H, D = (3, 1) if tier == "quick" else (3, 2)
     its = items(tier)
     col = stepcheck.explore(its, MONS, H, D, seed=seed)
+    # models passed through literally (no exploration on top): resources with unsorted / repeated absence lists
+    lit = [(sp, {"rule": r, "max_time": 20}) for sp in F.unsorted_absence_specs() for r in ("TSLACK", "SPT")]
+    col.merge(stepcheck.explore(lit, MONS, 0, 0, seed=seed))
     meta = {
         "level": "model_checking",
         "rule": "(a) every 2x2 worker-task skill grid over {missing,0,1e-11,1}; (b) every team-targeting matrix of 2 teams x 2 tasks x solo flags; (c) all pairs of fixed "
